@@ -36,13 +36,27 @@ def run_script(script_text, fn, queries, extra_probes=None, per_query_timeout=3.
         for k, lines in list(PROBE_CLASSES.items()) + list((extra_probes or {}).items()):
             with open(os.path.join(d, k), "w") as f:
                 f.write("".join(l + "\n" for l in lines))
-        inp = "".join("\x1f".join([q.get("wb", "d"), "cmd"] + q["words"] + [q["prefix"], "END"]) + "\n" for q in queries)
-        try:
-            p = subprocess.run(["bash", "--norc", "--noprofile", DRIVER, sp, fn, d], input=inp.encode("utf-8", "surrogateescape"),
-                               capture_output=True, timeout=10 + per_query_timeout * len(queries))
-            lines = p.stdout.decode("utf-8", "replace").split("\n")[:-1]
-        except subprocess.TimeoutExpired as e:
-            lines = (e.stdout or b"").decode("utf-8", "replace").split("\n")[:-1]
+        def drive(qs, per_q):
+            inp = "".join("\x1f".join([q.get("wb", "d"), "cmd"] + q["words"] + [q["prefix"], "END"]) + "\n" for q in qs)
+            try:
+                p = subprocess.run(["bash", "--norc", "--noprofile", DRIVER, sp, fn, d], input=inp.encode("utf-8", "surrogateescape"),
+                                   capture_output=True, timeout=20 + per_q * len(qs))
+                return p.stdout.decode("utf-8", "replace").split("\n")[:-1]
+            except subprocess.TimeoutExpired as e:
+                return (e.stdout or b"").decode("utf-8", "replace").split("\n")[:-1]
+        lines = drive(queries, per_query_timeout)
+        lines = [l for l in lines if l.count("\x1e") == 2]
+        # a driver that stopped answering (machine load, or a completion that hangs): the unanswered queries are retried one by
+        # one with a generous limit; only a query that still gets no answer on its own is recorded as unanswered (rc -2)
+        k = len(lines)
+        while k < len(queries):
+            one = [l for l in drive([queries[k]], 30.0) if l.count("\x1e") == 2]
+            lines.append(one[0] if one else "")
+            k += 1
+            if k < len(queries):
+                more = [l for l in drive(queries[k:], per_query_timeout) if l.count("\x1e") == 2]
+                lines.extend(more)
+                k = len(lines)
         out = []
         for i, q in enumerate(queries):
             r = dict(q)
